@@ -193,6 +193,18 @@ def check(ctx: Ctx, col: Collector, tier: str) -> None:
                                  "one superclass entry per named base expression, appended in source order" if okk else "loop shape differs",
                                  *([] if okk else ["the superclass list does not have one entry per named base in source order"]))
 
+    # a base written with type arguments (`Box[int]`) names a class too
+    if sloops:
+        node, itv, el, entry = sloops[-1]
+        sub = Obj("IndexExpr", (("base", Obj("NameExpr", (("fullname", Const("pkg.mod.Box")), ("name", Const("Box")), ("node", Sym("base.node"))))), ("index", Sym("base.index"))))
+        body = run_body(it, node, entry.clone(), sub)
+        aps = [[e for e in new_effects(o, entry) if e.kind == "mutate" and e.target == "superclasses.append"] for o in body if o.kind != "raise"]
+        okk = bool(aps) and all(len(a) == 1 for a in aps)
+        (col.ok if okk else col.bad)("C12.FLAGS", f"{VISITOR}::{VCLS}.enter_classdef::superclasses::subscripted-base", repo.loc(VISITOR, cfi2.node),
+                                     "a subscripted base expression contributes its class" if okk else f"appends per path: {[len(a) for a in aps]}",
+                                     *([] if okk else ["a base class written with type arguments (`class IntBox(Box[int])`) is not recorded as a superclass: the stub shows no `sub Box`, and the "
+                                                       "public members of a private generic base (`_Container[int]`) are not inherited"]))
+
     # ------------------------------------------------------------------ ATTR-DEDUP-SCOPE
     dfi = repo.function(VISITOR, f"{VCLS}._is_attribute_already_defined")
     col.touched(dfi)
